@@ -207,5 +207,75 @@ theorem fold1_append (l l' : List α) (x : α) :
     fold1 m ((x :: l) ++ l') = some (l'.foldl m (l.foldl m x)) := by
   simp [fold1, List.foldl_append]
 
+/-- the fold of a list all of whose elements are below `u` is below `u` -/
+theorem fold1_le_of_forall (h : ACI m C) {l : List α} {v u : α} (hl : ∀ y ∈ l, C y) (hu : C u)
+    (hv : fold1 m l = some v) (hle : ∀ y ∈ l, le m y u) : le m v u := by
+  cases l with
+  | nil => cases hv
+  | cons x l =>
+    simp only [fold1, Option.some.injEq] at hv
+    subst hv
+    exact foldl_le h (hl x (by simp)) (fun y hy => hl y (by simp [hy])) hu (hle x (by simp))
+      (fun y hy => hle y (by simp [hy]))
+
+/-- **replacing a sub-collection by its fold does not change the fold**: `l'` consists of
+    elements of `l` and possibly the fold of `B ⊆ l`; every element of `l` is still in `l'` or is
+    in `B` whose fold is in `l'`. -/
+theorem fold1_replace (h : ACI m C) {l l' B : List α} (hl : ∀ y ∈ l, C y) (hB : ∀ y ∈ B, y ∈ l)
+    (h1 : ∀ y ∈ l', y ∈ l ∨ fold1 m B = some y)
+    (h2 : ∀ y ∈ l, y ∈ l' ∨ (y ∈ B ∧ ∃ v, fold1 m B = some v ∧ v ∈ l')) :
+    fold1 m l' = fold1 m l := by
+  have hBc : ∀ y ∈ B, C y := fun y hy => hl y (hB y hy)
+  have hl' : ∀ y ∈ l', C y := by
+    intro y hy
+    rcases h1 y hy with hh | hh
+    · exact hl y hh
+    · exact fold1_closed h hBc hh
+  cases hfl : fold1 m l with
+  | none =>
+    cases l with
+    | cons x l => simp [fold1] at hfl
+    | nil =>
+      cases l' with
+      | nil => rfl
+      | cons x' l' =>
+        rcases h1 x' (by simp) with hh | hh
+        · cases hh
+        · cases B with
+          | nil => simp [fold1] at hh
+          | cons b B => exact absurd (hB b (by simp)) (by simp)
+  | some v =>
+    cases hfl' : fold1 m l' with
+    | none =>
+      cases l' with
+      | cons x l' => simp [fold1] at hfl'
+      | nil =>
+        cases l with
+        | nil => simp [fold1] at hfl
+        | cons x l =>
+          rcases h2 x (by simp) with hh | ⟨_, _, _, hh⟩
+          · cases hh
+          · cases hh
+    | some v' =>
+      congr 1
+      apply fold1_eq_of_mutual_le h hl' hl hfl' hfl
+      · intro y hy
+        rcases h1 y hy with hy' | hy'
+        · obtain ⟨u, hu, hle⟩ := le_fold1 h hl hy'
+          rw [hfl] at hu; cases hu; exact hle
+        · apply fold1_le_of_forall h hBc (fold1_closed h hl hfl) hy'
+          intro z hz
+          obtain ⟨u, hu, hle⟩ := le_fold1 h hl (hB z hz)
+          rw [hfl] at hu; cases hu; exact hle
+      · intro y hy
+        rcases h2 y hy with hy' | ⟨hyB, w, hw, hwl⟩
+        · obtain ⟨u, hu, hle⟩ := le_fold1 h hl' hy'
+          rw [hfl'] at hu; cases hu; exact hle
+        · obtain ⟨u, hu, hle⟩ := le_fold1 h hBc hyB
+          rw [hw] at hu; cases hu
+          obtain ⟨u', hu', hle'⟩ := le_fold1 h hl' hwl
+          rw [hfl'] at hu'; cases hu'
+          exact le_trans h (hl y hy) (hl' _ hwl) (fold1_closed h hl' hfl') hle hle'
+
 end FoldACI
 end RedisVerif
